@@ -368,9 +368,10 @@ def check_frame_depth(ctx, rep, rule):
                 a, c = psc.strip(f[1]), psc.strip(f[2])
                 for x, y in ((a, c), (c, a)):
                     if x[0] == 'len' and "'%s'" % fname in str(x) and y[0] == 'int':
-                        # the surviving side must bound the length from above
+                        # the surviving side must bound the length from above, by a number of frames a host can hold
+                        # (2^24 frames of 16 bytes are 256 MB; `len < usize::MAX` is no bound)
                         upper = (x is a and f[0] in ('Lt', 'Le')) or (x is c and f[0] in ('Gt', 'Ge'))
-                        if upper:
+                        if upper and 0 < y[1] <= (1 << 24):
                             return True
         return False
     sites = []
